@@ -21,7 +21,7 @@ KILLISH = {"KILLED", "PENDING_RECOVERY", "RUNNING_RECOVERY"}
 def descs(ctx: Ctx) -> list[dict]:
     out = []
     for backend in env.BACKENDS:
-        for queue in ("single", "dup", "two", "blocking", "recovery", "kill", "foreign-kill", "late-finish"):
+        for queue in ("single", "dup", "two", "blocking", "recovery", "recovery-reclaim", "kill", "foreign-kill", "late-finish"):
             out.append(dict(backend=backend, queue=queue, n=2, k=2 if queue == "two" else 1,
                             bound=1 if queue == "two" else 2))
         out.append(dict(backend=backend, queue="dup", n=3, k=1, bound=1))
@@ -51,7 +51,7 @@ class Scn:
     def execute(self, choices: list[int], expect: Any) -> sched.Execution:
         d = self.desc
         n, k, queue = d["n"], d["k"], d["queue"]
-        extra = 1 if queue in ("recovery", "kill", "foreign-kill", "late-finish") else 0
+        extra = 1 if queue in ("recovery", "recovery-reclaim", "kill", "foreign-kill", "late-finish") else 0
         w = World(d["backend"], n + extra + 1, app_id="c02", max_pending_seconds=5.0)
         self.w = w
         w.bind(tasks.keyed)
@@ -82,7 +82,7 @@ class Scn:
             o.waiting_for_results(waiter, [i1])
             # drop the waiter's own queue message: only i1 is queued
             self._drop_from_queue(w, client, waiter)
-        elif queue in ("recovery", "kill", "foreign-kill", "late-finish"):
+        elif queue in ("recovery", "recovery-reclaim", "kill", "foreign-kill", "late-finish"):
             # r0 already holds i1 (PENDING); r0 will start it while a third actor recovers / kills it
             from pynenc.invocation.status import InvocationStatus as S
 
@@ -102,7 +102,10 @@ class Scn:
                 ctx = runner_ctx(f"r{j}")
                 app = w.apps[j]
                 got = []
-                held_first = queue in ("recovery", "kill", "foreign-kill") and j == 0
+                held_first = queue in ("recovery", "recovery-reclaim", "kill", "foreign-kill") and j == 0
+                # recovery-reclaim: r1 only claims (it is busy otherwise): the status passes through PENDING again,
+                # under another owner, while r0 may still be inside its own PENDING -> RUNNING change
+                claim_only = queue == "recovery-reclaim" and j == 1
                 if queue == "late-finish" and j == 0:
                     inv = app.state_backend.get_invocation(i1)
                     try:
@@ -123,7 +126,7 @@ class Scn:
                         raise
                     except Exception as e:  # noqa: BLE001 - a raising poll is "got nothing" here (see DESIGN C02)
                         w.log.append(("poll-error", worlds._tid(), type(e).__name__, f"r{j}"))
-                for inv in got:
+                for inv in ([] if claim_only else got):
                     try:
                         inv.run(ctx)
                     except sched.Abort:
@@ -137,7 +140,7 @@ class Scn:
 
         for j in range(n):
             actors.append((f"poller{j}", poller(j)))
-        if queue == "recovery":
+        if queue in ("recovery", "recovery-reclaim"):
             def recover() -> None:
                 from pynenc import context, core_tasks
 
@@ -151,6 +154,8 @@ class Scn:
                 except Exception as e:  # noqa: BLE001 - C04 judges the recovery run itself
                     w.log.append(("recover-error", worlds._tid(), type(e).__name__, "rrec"))
             actors.append(("recovery", recover))
+            if queue == "recovery-reclaim":
+                actors.append(actors.pop(1))  # order: r0 (starts what it holds), recovery, r1 (claims)
         if queue in ("kill", "foreign-kill"):
             def kill() -> None:
                 from pynenc.runner.thread_runner import ThreadRunner
